@@ -103,6 +103,24 @@ def fresh_seq(interp, elem_t, name):
         s = SymSeq(length, lambda k, fs=fs: NTuple("Pos", ("n", "x", "y"), [f(z3k(k)) for f in fs]), name)
         s.funcs = fs
         return s
+    if elem_t.startswith("tuple[") and elem_t.endswith("]"):
+        parts = split_top(elem_t[6:-1])
+        comps = []
+        for j, pt in enumerate(parts):
+            if pt in ("int", "nat"):
+                f = z3.Function("%s.%d" % (base, j), z3.IntSort(), z3.IntSort())
+                comps.append(lambda k, f=f: f(z3k(k)))
+            elif pt == "Pos":
+                fs = [z3.Function("%s.%d.%s" % (base, j, fld), z3.IntSort(), z3.IntSort()) for fld in ("n", "x", "y")]
+                comps.append(lambda k, fs=fs: NTuple("Pos", ("n", "x", "y"), [f(z3k(k)) for f in fs]))
+                if j == 0:
+                    first_fn = fs[0]
+            else:
+                raise OutOfSubset("sequence tuple component type %r" % pt)
+        s = SymSeq(length, lambda k, comps=comps: tuple(c(k) for c in comps), name)
+        trig = z3.Function("%s.trig" % base, z3.IntSort(), z3.IntSort())
+        s.funcs = None
+        return s
     if elem_t.startswith("tok:") or elem_t == "str":
         # element k is an opaque token indexed by k: modelled as an uninterpreted Int id
         f = z3.Function(base, z3.IntSort(), z3.IntSort())
